@@ -136,5 +136,5 @@ def _encoded_lat_is_north_pole(leg, case):
 KNOWN_PREDICATES = {"encoded_latitude_is_plus_90": _encoded_lat_is_north_pole}
 
 
-LEGS = [Leg("surface_pair", chk_surface, strategy=s_surface, quick=32000, thorough=2500000,
+LEGS = [Leg("surface_pair", chk_surface, strategy=s_surface, quick=32000, thorough=1200000,
             doc="even+odd surface pair, receiver anywhere within 45 NM, both time orders, position() and surface_position()")]
